@@ -2,7 +2,7 @@
    Only ExtrOcamlBasic's directives are used (bool, option, list, prod, unit, sumbool
    mapped to OCaml's own types); N, Z, positive and nat stay extracted inductives. *)
 From Coq Require Import ExtrOcamlBasic.
-From VL Require Import Base Json Schema Wire WireSet Service Script Client PoolExpr Pool PoolFacts Listen Idl Format Gen Codec Cert.
+From VL Require Import Base Json Schema Wire WireSet Service Script Client PoolExpr Pool PoolSrc Listen Idl Format Gen Codec Cert.
 From VLG Require Import WireGen SetGen PoolGen.
 Extraction Language OCaml.
 Separate Extraction
@@ -19,7 +19,7 @@ Separate Extraction
   WireSet.set_ser WireSet.set_de_value WireSet.set_de_text WireSet.map_ser WireSet.map_de_value WireSet.map_de_text
   SetGen.set_visitor_consumes_value
   Client.cstep Client.cs_init Client.new_call
-  PoolFacts.src_step PoolFacts.src_init Pool.bound_ok Pool.no_strand_ok PoolFacts.src_cfg Listen.lrun Listen.linit
+  PoolSrc.src_step PoolSrc.src_init Pool.bound_ok Pool.no_strand_ok PoolSrc.src_cfg Listen.lrun Listen.linit
   Idl.try_from Idl.interface_name Format.format_src Json.utf8_enc
   Gen.emitted Gen.generator_panics Gen.emitted_fn_names Gen.emitted_type_names Gen.known_classes Gen.typedefs_of Gen.methods_of Gen.errors_of
   Codec.enc Codec.enc_top Codec.dec_top Codec.dec_fuel Codec.wire_method
